@@ -143,9 +143,20 @@ unsafe impl GlobalAlloc for SimAlloc {
         }
         let off = p as usize - ARENA.0.as_ptr() as usize;
         if new_size <= layout.size() {
-            snapshot(2, p.add(new_size), layout.size() - new_size);
+            if REALLOC_IN_PLACE {
+                snapshot(2, p.add(new_size), layout.size() - new_size);
+                STATS[4] += 1;
+                return p;
+            }
+            // policy "moving": a shrinking realloc relocates the block, the whole old block is released
+            let np = arena_alloc(Layout::from_size_align_unchecked(new_size, layout.align()), 0xA5);
+            if np.is_null() {
+                return np;
+            }
+            std::ptr::copy_nonoverlapping(p, np, new_size);
+            snapshot(1, p, layout.size());
             STATS[4] += 1;
-            return p;
+            return np;
         }
         if REALLOC_IN_PLACE && off + layout.size() == TOP && off + new_size <= ARENA_SIZE {
             std::ptr::write_bytes(p.add(layout.size()), 0xA5, new_size - layout.size());
@@ -259,7 +270,7 @@ fn generate(seed: u64, run: u64, thorough: bool) -> APlan {
     for _ in 0..nops {
         let sizes: &[u32] = if thorough { &sizes_t } else { &sizes_q };
         match rng.below(12) {
-            0..=2 => ops.push(Op::Msm { g: rng.below(2) as u8, n: *rng.pick(sizes), it: rng.below(4) as u8 }),
+            0..=2 => ops.push(Op::Msm { g: rng.below(2) as u8, n: *rng.pick(sizes), it: rng.below(5) as u8 }),
             3 | 4 => ops.push(Op::BatchInvert { n: *rng.pick(sizes) }),
             5 | 6 => {
                 let s = rng.below(6) as u8;
@@ -489,6 +500,8 @@ fn run_variant(plan: &APlan, v: u8, c: &mut Counters) -> Trace {
                         let h = n / 2;
                         EdwardsPoint::multiscalar_mul(scalars[..h].iter().chain(scalars[h..].iter()), points[..h].iter().chain(points[h..].iter())).compress().to_bytes()
                     }
+                    (0, 4) => EdwardsPoint::multiscalar_mul(scalars.iter().filter(|_| true), points.iter().filter(|_| true)).compress().to_bytes(),
+                    (_, 4) => RistrettoPoint::multiscalar_mul(scalars.iter().filter(|_| true), rpoints.iter().filter(|_| true)).compress().to_bytes(),
                     (0, _) => EdwardsPoint::multiscalar_mul(PlainRef(&scalars, 0), PlainRef(&points, 0)).compress().to_bytes(),
                     (_, 0) => RistrettoPoint::multiscalar_mul(scalars.iter(), rpoints.iter()).compress().to_bytes(),
                     (_, 1) => RistrettoPoint::multiscalar_mul(scalars.iter().cloned(), rpoints.iter().cloned()).compress().to_bytes(),
@@ -500,7 +513,16 @@ fn run_variant(plan: &APlan, v: u8, c: &mut Counters) -> Trace {
                 });
                 freed = window_end();
                 if r.is_err() {
-                    zf = Some("panic inside multiscalar_mul".to_string());
+                    if *it == 4 {
+                        // iterators without exact size hints are outside the documented domain: refusing them is
+                        // fine (frees during unwinding are outside the statement), silently leaking is not
+                        freed.clear();
+                        bump(c, "probe:inexact_size_hint_refused");
+                    } else {
+                        zf = Some("panic inside multiscalar_mul".to_string());
+                    }
+                } else if *it == 4 {
+                    bump(c, "probe:inexact_size_hint_accepted");
                 }
                 bump(c, "op:Msm");
             }
